@@ -111,9 +111,9 @@ Proof. exact pool_converges_lemma. Qed.
 Print Assumptions pool_tree_independent_of_history.
 
 (* Metadata: when the upstream answers the first path of each queued release
-   file / index - at the first request, or after fewer 404 / 5xx answers than
-   the retry budget if the file is a required one ([good_meta]) - with a
-   complete body of a bytes dated d
+   file / index - at the first request, or, if the file is a required one, after
+   fewer faults than the retry budget (404, 5xx, or the same file broken off or
+   of a wrong length: [good_meta]) - with a complete body of a bytes dated d
    (ann f = (variant, a, d); a <> 0 and equal to the declared size if there is
    one), then after the stage - from EVERY previous filesystem, whether the
    file is transferred or recognised as unmodified - every path of that variant
